@@ -1762,3 +1762,8 @@ mod tests {
         assert_eq!(r.count(), 55);
     }
 }
+
+#[cfg(all(test, lumina_verif))]
+mod verif_native {
+    include!(concat!(env!("LUMINA_VERIF_DIR"), "/native/node/block_ranges.rs"));
+}
